@@ -205,3 +205,13 @@ Definition relay_steps (ex : bytes) (height : N) (hk : N → L2.hookp) (ks : lis
 (* the emitted but not yet relayed sequences, in order *)
 Definition pending_seqs (c : scfg) (s : sys) : list N :=
   seq_from (N.to_nat (L1.seq_of (l1 s) (bid c) - L2.next_l1 (l2 s))) (L2.next_l1 (l2 s)).
+
+(* The drain schedule from state [s]: relay every pending emitted event in order; propose the
+   honest output over ALL withdrawals recorded after those relays; then (at a later block time)
+   submit the listed claims against it. *)
+Definition drain (c : scfg) (s : sys) (ex : bytes) (height : N) (hk : N → L2.hookp)
+           (e1 : L1.env) (proposer : bytes) (idx l2block v : N) (bh : bytes)
+           (e2 : L1.env) (sender : bytes) (ms : list N) : list smsg :=
+  let relays := relay_steps ex height hk (pending_seqs c s) in
+  let hi := (L2.next_l2 (l2 (sys_run c s relays)) - 1)%N in
+  relays ++ [SPropose e1 proposer idx l2block 0 hi v bh] ++ claim_steps e2 sender idx 0 hi v bh ms.
